@@ -101,6 +101,7 @@ struct Sys {
     std::vector<Event> log;
     ExtMem ext;
     std::vector<uint8_t> user_memory; // when the instance runs on a caller-supplied buffer
+    uint8_t* retained = nullptr;      // the memory pointer a host fetched once, right after construction, and kept
     std::function<void()> on_external;  // optional: called on every external (AHBM) access, e.g. to enforce a work budget
 
     explicit Sys(bool own_memory = true) {
@@ -110,6 +111,7 @@ struct Sys {
             cfg.dsp_memory = user_memory.data();
         }
         t = std::make_unique<Teakra::Teakra>(cfg);
+        retained = own_memory ? t->GetDspMemory() : user_memory.data();
         install();
     }
     void install() {
@@ -193,7 +195,8 @@ struct Sys {
         sut_regs_set(&t->GetRegisterState(), &s);
     }
     uint64_t memory_digest() const {
-        const uint64_t* p = (const uint64_t*)t->GetDspMemory();
+        // (an observation must not look like a host write: the const accessor, or the caller's own buffer)
+        const uint64_t* p = (const uint64_t*)(user_memory.empty() ? static_cast<const Teakra::Teakra&>(*t).GetDspMemory() : user_memory.data());
         uint64_t h = 0x9E3779B97F4A7C15ull;
         for (size_t i = 0; i < Teakra::DspMemorySize / 8; ++i)
             h = (h ^ p[i]) * 0x100000001B3ull + (h >> 29);
